@@ -3,7 +3,7 @@
 MC  : spec/CtxSelect.tla (the five C18 predicates, a reference chooser) with spec/MC_Ctx.tla: every set of at most two
       accepted contexts over 4 abstract syntaxes x 5 transfer syntaxes x 3 role pairs and every send operation (C-STORE of a
       data set that arrived in each transfer syntax, C-FIND, C-ECHO, N-EVENT-REPORT as SCP, N-CREATE on UPS Push, N-GET);
-      TLC checks that the reference chooser satisfies C18 on all 36610 cases and writes them out.
+      TLC checks that the reference chooser satisfies C18 on all 73220 cases and writes them out.
 S2C : the cases (sampled in quick) are run on a real Association with those contexts installed, through the public send_*
       API, transport cut at dul.send_pdu; the captured P-DATA tells the context id and the data set's real encoding.
 C2S : Trace_Ctx evaluates the C18 predicates on each observed result.
@@ -33,14 +33,14 @@ def run(ctx: Ctx) -> int:
     open(cfg, "w").write("SPECIFICATION DumpSpec\nCONSTANT MaxCx = 2\nINVARIANT Dumped\nCHECK_DEADLOCK FALSE\n")
     must_ok(run_tlc("MC_Ctx", cfg, workdir=ctx.work, workers=1, env={"OUT": out}, timeout=1800))
     cases = [json.loads(l) for l in open(out) if l.strip()]
-    if len(cases) < 30000:
+    if len(cases) < 60000:
         raise MachineryError(f"only {len(cases)} cases dumped")
     ctx.states += len(cases)
     rng = random.Random(ctx.seed + 18)
     if not thorough:
         live = [c for c in cases if not c["refuses"]]
         dead = [c for c in cases if c["refuses"]]
-        cases = rng.sample(live, 3500) + rng.sample(dead, 1500)
+        cases = rng.sample(live, 4000) + rng.sample(dead, 1500)
     from ctx_lab import run_case
     obs = []
     for j, c in enumerate(cases):
@@ -68,4 +68,4 @@ def run(ctx: Ctx) -> int:
     ctx.sample(obs[0])
     ctx.assume("contexts installed on a real Association (requestor mode), transport cut at dul.send_pdu; the peer is pynetdicom's own DIMSE decoder",
                "data sets without pixel data; a JPEG context carries an explicit VR little endian data set")
-    return ctx.finish(rule="every set of <= 2 accepted contexts (4 abstract syntaxes x 5 transfer syntaxes x 3 role pairs) x 10 send operations; sampled in quick (3500 with a usable context, 1500 without)")
+    return ctx.finish(rule="every set of <= 2 accepted contexts (4 abstract syntaxes x 5 transfer syntaxes x 3 role pairs) x 20 send operations (incl. a file sent by path in chunked mode, alone and after an earlier C-STORE on the same association); sampled in quick (4000 with a usable context, 1500 without)")
